@@ -516,7 +516,13 @@ def _resolve_challenge(spec):
 #  Sessions
 # =====================================================================================================
 IPS = ['10.0.0.1', '10.0.0.11', '10.0.0.2', '127.0.0.1']
-AGENTS = [None, '', 'x', '1x', 'Mozilla/5.0 (X11; Linux x86_64)', 'curl/8.5.0']
+_LONG_AGENT = 'Mozilla/5.0 (X11; Linux x86_64) AppleWebKit/537.36 (KHTML, like Gecko) ' + 'Chrome/120.0.0.0 Safari/537.36 ' * 4
+# the last entries are realistic long agents that agree in their first 128/200 characters and differ only afterwards, and one that
+# differs only in case (a fingerprint that truncates or normalises the agent would confuse them; trailing blanks are not
+# generated: header values are whitespace-trimmed on the wire, so that would be the same agent)
+AGENTS = [None, '', 'x', '1x', 'Mozilla/5.0 (X11; Linux x86_64)', 'curl/8.5.0',
+          _LONG_AGENT[:200] + ' Edg/120.0.1', _LONG_AGENT[:200] + ' Edg/120.0.2', _LONG_AGENT[:130] + 'A', _LONG_AGENT[:130] + 'B',
+          'Curl/8.5.0']
 COOKIE_VARIANTS = ['same', 'same', 'same', 'none', 'uuid-altered', 'fp-altered', 'noslash', 'fp-own', 'garbage', 'empty',
                    'other-name', 'fp-only']
 
